@@ -24,10 +24,10 @@ fn nontrivial(c: &ProgCase, steps: u64) -> bool {
 
 fn check(ctx: &Ctx, ws: &mut Workers, c: &ProgCase, counting: bool, strict: bool) -> PropResult {
     let cfgs = [Config::default_cfg(), Config::jit_off()];
-    let r = c01::check_case_with(ctx, ws, c, counting, &cfgs, strict, "c08", &[Entry::Repl], false, &nontrivial);
+    let r = c01::check_case_with(ctx, ws, c, counting, &cfgs, strict, "c08", &[Entry::Repl, Entry::Module], false, &nontrivial);
     if counting {
         for f in &c.features {
-            if ["continuation-reentry", "escape-through-wind", "reentry-into-wind", "error-through-wind", "reentry-into-map", "nested-handlers", "escape-from-depth", "capture-in-argument-position"].contains(&f.as_str()) {
+            if ["continuation-reentry", "escape-through-wind", "reentry-into-wind", "error-through-wind", "reentry-into-map", "nested-handlers", "escape-from-depth", "capture-in-argument-position", "reentry-into-nested-winds", "reentry-from-sibling-wind"].contains(&f.as_str()) {
                 ctx.stats.class(&format!("template:{}", f));
             }
         }
@@ -74,7 +74,7 @@ pub fn run(ctx: &Ctx, replay: Option<&str>) -> i32 {
             check(ctx, &mut ws, &c, false, true)
         });
     }
-    let total = ctx.n(8000, 300_000);
+    let total = ctx.n(6000, 300_000);
     let avoid = c01::avoid_list(ctx);
     let fails = run_prop(
         ctx,
